@@ -143,6 +143,52 @@ def bystander(live, op, step, out, stats, log, prefix):
     stats["bystander_evaluations"] = stats.get("bystander_evaluations", 0) + len(op["names"])
 
 
+def sibling(live, op, step, out, stats, log, prefix, rng):
+    """A second model in the same process that is spelled exactly like the live one (same state, parameter and
+    derived-parameter names, same rate strings) but DEFINES a derived parameter differently.  It is built and
+    evaluated after the live model has been used; both must give what their own definitions say."""
+    model2 = copy.deepcopy(live.model)
+    for nm, eq in op["derived_alt"]:
+        for d in model2.get("derived", []):
+            if d[0] == nm:
+                d[1] = eq
+    procs = model2.get("processes", [])
+    model2["processes"] = [dict(procs[i], route="event") for i in live.event_order]
+    for o in model2.get("odes", []):
+        o.pop("add", None)
+    ref2 = RefModel(model2, list(range(len(model2["processes"]))))
+    live.interleaves += 1
+    stats["sibling_models"] = stats.get("sibling_models", 0) + 1
+    try:
+        ode2 = build_model(live.pg, model2, backend="lambda")
+        th = live.theta()
+        if ref2.p and all(v is not None and not isinstance(v, tuple) for v in th):
+            ode2.parameters = list(th)
+        names = ref2.state_names + ref2.param_names + ["t"]
+        got, want = ode2.get_ode_eqn(), ref2.sym("f")
+        for i in range(want.shape[0]):
+            ok, _ = sym_equal(got[i, 0], want[i, 0], rng, names)
+            if not ok:
+                out.append(fail("%s.sibling.ode_eqn" % prefix, step, "a second model with the same spelling but another definition of %s: dx_%d/dt = %s, expected %s" % (
+                    [d[0] for d in op["derived_alt"]], i, got[i, 0], want[i, 0])))
+                break
+        x, t = op["x"], op["t"]
+        if all(v is not None and not isinstance(v, tuple) for v in th):
+            for nm in ["ode"] + (["eventRateVector"] if ref2.m else []):
+                g = np.asarray(evaluate(ode2, nm, x, t), float)
+                w = ref_value(ref2, nm, x, t, th)
+                msg = cmp_arrays(g, w.reshape(expected_shape(ref2, nm)), 1e-9, 1e-11, collapse_ok=True)
+                log.append(["sib", step, nm, core.digest(g.tolist(), 10)])
+                if msg:
+                    out.append(fail("%s.sibling.%s" % (prefix, nm), step, "%s(x,t) of the second model: %s" % (nm, msg)))
+    except core.RunTimeout:
+        raise
+    except core.HarnessError:
+        raise
+    except Exception as e:
+        out.append(core.crash_failure(prefix, e, step, "building / evaluating a second model that differs in a derived-parameter definition"))
+
+
 def fresh_model(live):
     """A newly constructed PyGOM model with the same final definition (C08's oracle): all processes
     through the constructor's event list in the live event order, parameters assigned by name."""
@@ -653,6 +699,8 @@ def execute(case, prefix, eval_against="ref"):
                 check_sens(live, op, step, out, stats, log, prefix)
             elif kind == "bystander":
                 bystander(live, op, step, out, stats, log, prefix)
+            elif kind == "sibling":
+                sibling(live, op, step, out, stats, log, prefix, rng)
             else:
                 raise core.HarnessError("unknown op %r" % kind)
             measure.append([compiled_before, kind])
